@@ -4,6 +4,7 @@ CONSTANTS
   FixFinal = TRUE
   FixSpillMin = TRUE
   FixLeftId = TRUE
+  FixEmptyMerge = TRUE
   ShapeSet = "four"
   Sizes = {1, 3, 7}
   Spills = {1, 3, 6}
